@@ -1405,7 +1405,8 @@ class Crystal(object):
         :return nnlist: list of nearest neighbor vectors
         """
         r2 = cutoff * cutoff
-        nmax = [int(np.round(np.sqrt(r2/self.metric[i, i]))) + 1
+        # lattice vectors within cutoff of any two points of the cell: |n_i| <= cutoff / h_i + 1, h_i = cell height
+        nmax = [int(np.ceil(cutoff * np.sqrt(np.dot(self.invlatt[i], self.invlatt[i])))) + 1
                 for i in range(self.dim)]
         nranges = [range(-n, n+1) for n in nmax]
         supervect = [np.array(ntup) for ntup in itertools.product(*nranges)]
@@ -1440,7 +1441,10 @@ class Crystal(object):
             return any(tup == ij and self.__isclose__(dx, v) for translist in lis for ij, v in translist)
 
         r2 = cutoff * cutoff
-        nmax = [int(np.round(np.sqrt(r2/self.metric[i, i]))) + 1
+        # lattice vectors within cutoff (plus the obstruction distance) of any two points of the cell:
+        # |n_i| <= range / h_i + 1, h_i = cell height (not |a_i|, which is larger for skewed cells)
+        maxclosest = max(closestdistance) if type(closestdistance) is list else closestdistance
+        nmax = [int(np.ceil((cutoff + maxclosest) * np.sqrt(np.dot(self.invlatt[i], self.invlatt[i])))) + 1
                 for i in range(self.dim)]
         nranges = [range(-n, n+1) for n in nmax]
         supervect = [np.array(ntup) for ntup in itertools.product(*nranges)]
